@@ -39,13 +39,18 @@ def bracket(est_rate, denom, eta, level, n_impl, upper, seed, B=20000):
     return out
 
 
-def run(p, cells, seed=0, enc=None, X=None):
-    """cells: list of (y_true, y_pred) in {0,1}^2"""
+def run(p, cells, seed=0, enc=None, X=None, resets=()):
+    """cells: list of (y_true, y_pred) in {0,1}^2; resets: positions before which the user calls reset()"""
     det = make(p)
     ev = []
     conf = {"tn": 1, "fn": 1, "fp": 1, "tp": 1}
     seen = set()
     for t, (yt, yp) in enumerate(cells):
+        if t in resets:
+            det.reset()
+            conf = {"tn": 1, "fn": 1, "fp": 1, "tp": 1}
+            ev.append({"op": "reset", "total": int(det.total_samples), "since": int(det.samples_since_reset), "state": st(det.drift_state),
+                       "recs": recs(list(det.retraining_recs)), "nstates": len(det.all_drift_states)})
         if det.drift_state == "drift":
             conf = {"tn": 1, "fn": 1, "fp": 1, "tp": 1}
         np.random.seed((seed * 7919 + t) % (2 ** 32))
@@ -88,7 +93,7 @@ def run(p, cells, seed=0, enc=None, X=None):
             pass
         ev.append(e)
     cfg = {"eta": num(p["eta"]), "burn": p["burn"], "sub": p["sub"], "rv": p["rv"], "tracked": list(p["tracked"])}
-    return {"cfg": cfg, "ev": ev, "params": p, "cells": [list(c) for c in cells], "seed": seed}
+    return {"cfg": cfg, "ev": ev, "params": p, "cells": [list(c) for c in cells], "seed": seed, "resets": list(resets)}
 
 
 def params(rng, small=False):
@@ -110,7 +115,7 @@ def regime_cells(rng, n):
 
 
 def sabotage(trace, rng):
-    k = rng.randrange(len(trace["ev"]))
+    k = rng.choice([i for i, x in enumerate(trace["ev"]) if x["op"] == "update"])
     e = trace["ev"][k]
     w = rng.choice(["state", "since", "recs", "rstat"])
     if w == "state":
